@@ -53,7 +53,20 @@ def observe(sol):
             h.update(n.encode())
             h.update("|".join(vals).encode())
             fields[n] = vals
-    return {"kind": "val", "digest": h.hexdigest(), "fields": fields}
+    # the discontinuity locations a solution reports (ExactSolution.jumps: a list of numbers) are part of what a call returns
+    jumps = None
+    try:
+        js = getattr(sol, "jumps", None)
+        if js is not None:
+            jumps = [float(j) for j in js]
+            h.update(b"__jumps__")
+            h.update(np.asarray(jumps, float).tobytes())
+    except (TypeError, ValueError):
+        jumps = None
+    out = {"kind": "val", "digest": h.hexdigest(), "fields": fields}
+    if jumps is not None:
+        out["jumps"] = jumps
+    return out
 
 
 def apply_op(live, op):
